@@ -290,10 +290,11 @@ func VerifC18Graph(n int, maxOut int) {
 	verifLoadAndCheck()
 }
 
-// VerifC18Dag: node i imports a symbolic subset of the later nodes in every list order, plus optionally one
+// VerifC18Dag: node i imports a symbolic subset of the later nodes in every list order (allOrders = 1) or in
+// ascending / descending order (allOrders = 0, for the larger thorough-tier bound), plus optionally one
 // arbitrary extra edge (which may close a cycle, repeat an import or be a self-import) listed first or last
 // by its importer; the last package's namespace is symbolic (it may collide with any other).
-func VerifC18Dag(n int) {
+func VerifC18Dag(n int, allOrders int) {
 	verifPkgs = make([]verifPkg, n)
 	names := make([]string, n)
 	for i := 0; i < n; i++ {
@@ -308,8 +309,12 @@ func VerifC18Dag(n int) {
 				sel = append(sel, j)
 			}
 		}
-		if len(sel) > 1 {
+		if len(sel) > 1 && allOrders == 1 {
 			sel = verifPermute(sel, verifChoose(fmt.Sprintf("order%d", i), verifFactorial(len(sel))))
+		} else if len(sel) > 1 && verifChoose(fmt.Sprintf("desc%d", i), 2) == 1 {
+			for a, b := 0, len(sel)-1; a < b; a, b = a+1, b-1 {
+				sel[a], sel[b] = sel[b], sel[a]
+			}
 		}
 		verifPkgs[i].imports = sel
 	}
